@@ -694,6 +694,13 @@ namespace awkward {
       }
     }
     check_for_iteration();
+    for (size_t j = 0;  j < cols;  j++) {
+      if (contents_[j].get()->length() < rows) {
+        throw std::invalid_argument(
+          std::string("len(field(") + std::to_string(j)
+          + std::string(")) < len(recordarray)") + FILENAME(__LINE__));
+      }
+    }
     if (include_beginendlist) {
       builder.beginlist();
     }
